@@ -54,6 +54,26 @@ Definition rat_wf (q : brat) : bool :=
 
 Definition rat_of_N (n : N) : brat := mkrat false (of_N n) (Small 1).
 
+(* Representation of the quotient self.div(g) (BigUint::divmod, first
+   component): the value is val self / g; which limbs hold it depends on the
+   branch of divmod that is taken (all branch tests are by value):
+   Small / Small -> Small; g == 1 -> self.clone(); self == 0 or self < g ->
+   Small(0); self == g -> Small(1); g == 2 -> self.clone() shifted right by
+   one bit (same length); otherwise the long division builds the quotient with
+   set(i, ..) from its top non-zero limb down: the canonical representation.
+   For a Small self every branch gives a Small. *)
+Definition div_repr (a : buint) (g : N) : buint :=
+  match a with
+  | Small n => Small (n / g)
+  | Large v =>
+    if g =? 1 then a
+    else if is_zero a then Small 0
+    else if val a <? g then Small 0
+    else if val a =? g then Small 1
+    else if g =? 2 then Large (shr1 v)
+    else of_N (val a / g)
+  end.
+
 (* if self.den == 1 { return self }; gcd; num /= gcd; den /= gcd
    (BigUint division by a zero gcd, i.e. 0/0, is DivideByZero) *)
 Definition simplify (q : brat) : res brat :=
@@ -61,7 +81,7 @@ Definition simplify (q : brat) : res brat :=
   else
     let g := N.gcd (nval q) (dval q) in
     if g =? 0 then Err EDivByZero
-    else Ok (mkrat (rneg q) (of_N (nval q / g)) (of_N (dval q / g))).
+    else Ok (mkrat (rneg q) (div_repr (rnum q) g) (div_repr (rden q) g)).
 
 (* MustBeAnInteger -> ENotInteger; out_of_range(.., ZERO_OR_GREATER) -> EOutOfRange *)
 Definition apply_uint_op {R : Type} (q : brat) (f : buint -> res R) : res R :=
